@@ -43,7 +43,11 @@ class WSSession:
             for _ in range(self.prior):  # ordinary requests on the connection first
                 self.conn.send(b"GET /prior HTTP/1.1\r\nHost: example.com\r\n\r\n")
                 await env.settle(20.0)
+            wait = hs.pop("wait", True)
             await deliver(env, self.conn, handshake_request(path=path, **hs), self.seg)
+            if not wait:  # the caller acts while the handshake is pending, then finish_open()
+                await env.settle0()
+                return None
             await env.settle(20.0)
             self._parse_h1()
             return self.status
@@ -80,6 +84,12 @@ class WSSession:
         await env.settle(20.0)
         await self._pump()
         self._parse_h2()
+        return self.status
+
+    async def finish_open(self) -> Optional[int]:
+        """After open(wait=False) on the HTTP/1 carrier: wait for and parse the answer."""
+        await self.env.settle(20.0)
+        self._parse_h1()
         return self.status
 
     async def _flush(self) -> None:
